@@ -1,5 +1,5 @@
 import Proto.DA10
-import Proto.Flow3
+import Proto.FlowProof
 import Proto.BSearch
 import Proto.Eat1
 import Proto.Bvn1
